@@ -24,7 +24,7 @@ BUDGET_S = {"quick": 70, "thorough": 1200}
 
 
 def gen_cases(seed, tier):
-    return mc.gen_cases(ID, seed, tier, n_quick=32, n_thorough=480, ex_quick=60, ex_thorough=250, steps=12)
+    return mc.gen_cases(ID, seed, tier, n_quick=64, n_thorough=480, ex_quick=60, ex_thorough=250, steps=12)
 
 
 def run_case(case, workdir):
